@@ -214,10 +214,11 @@ CHECKS["C02"] = {
         H("os2", "c12.go", "VerifH_C12_os2_bytes", ["accepted"], quick={"timeout": 280}),
         H("post", "c12.go", "VerifH_C12_post_bytes", ["accepted"], quick={"timeout": 200}),
         H("name", "c14.go", "VerifH_C14_name_bytes", ["accepted"], quick={"params": {"maxextra": 2, "maxrec": 1}, "timeout": 280}, thorough={"params": {"maxextra": 8, "maxrec": 2}, "timeout": 2400}),
-        H("opentype/coverage", "c08.go", "VerifH_C08_coverage_bytes", ["accepted"], quick={"params": {"maxlen": 8}, "timeout": 280}, thorough={"params": {"maxlen": 16}, "timeout": 2400}),
+        H("opentype/coverage", "c08.go", "VerifH_C08_coverage_bytes", ["accepted"], quick={"params": {"maxlen": 16}, "timeout": 280}, thorough={"params": {"maxlen": 22}, "timeout": 2400}),
         H("opentype/classdef", "c08.go", "VerifH_C08_classdef_bytes", ["accepted"], quick={"params": {"maxlen": 8}, "timeout": 280}, thorough={"params": {"maxlen": 16}, "timeout": 2400}),
         H("opentype/gdef", "c08.go", "VerifH_C02_gdef", ["accepted"], quick={"params": {"maxwords": 2}, "timeout": 280, "shards": 3}, thorough={"params": {"maxwords": 5}, "timeout": 2400, "shards": 6}),
         H("opentype/gtab", _S7, "VerifH_C07_reader", ["accepted"], quick={"params": {"maxwords": 3}, "timeout": 280, "shards": 6}, thorough={"params": {"maxwords": 8}, "timeout": 2400, "shards": 6}),
+        H(".", ["c02.go", "c16.go", "common.go"], "VerifH_C02_glyphcounts", ["accepted", "rejected"], quick={"timeout": 280, "shards": 6}),
         H(".", ["c02.go", "c16.go", "common.go"], "VerifH_C02_fontread", ["accepted", "rejected"], quick={"params": {"window": 2, "stride": 2, "nshards": 8}, "timeout": 280, "shards": 8}, thorough={"params": {"window": 3, "stride": 1, "nshards": 14}, "timeout": 2400, "shards": 14}),
     ],
     "bounds": {"quick": "arbitrary bytes per decoder, every implicit runtime check is an obligation: header.Read 12+16*1(+4) bytes; kern.Read <=2 subtables x <=1 pair; cmap.Decode <=1 encoding record + 10..18 byte body, then Get/Lookup/CodeRange/GetBest; cmap formats 0/6/12; glyf.Decode 16 bytes split into 2 glyphs (both loca formats) + SimpleGlyph.Decode; hmtx 36+8; head 54; maxp <=32; OS/2 68..100; post 32..36; name 6+12+2; CFF: readIndex <=8 bytes, readCharset <=8, readFDSelect <=9, readPrivate with arbitrary int32 (size, offset) over an 8-byte file under a 1 MiB allocation obligation, coverage and class definition tables <=12 bytes, GDEF tables 12..16 bytes, GSUB subtable readers 6..12 bytes followed by Apply, DICT <=2 bytes, Type 2 charstrings <=3 bytes; sfnt.Read + accessors (glyph count, widths, boxes, names, simple-glyph decoding, components, cmap lookup, re-encoding) on every file that differs from a valid 5-glyph TrueType font (glyf/loca, cmap 12 with H and x, GSUB 4.1, GPOS 2.1+1.1, raw cvt/prep) in a window of 2 arbitrary bytes at every even offset behind the table directory (loops with input-dependent trip count cut at 12 iterations; fields listed under outside excluded); kern tables truncated anywhere inside the last subtable; Type 2 subroutines calling each other with symbolic targets",
@@ -230,7 +231,7 @@ _G = ["c08.go", "common.go"]
 CHECKS["C08"] = {
     "harnesses": [
         H("opentype/coverage", "c08.go", "VerifH_C08_coverage", ["read", "format2"], quick={"params": {"maxglyphs": 4}, "timeout": 280}, thorough={"params": {"maxglyphs": 6}, "timeout": 2400}),
-        H("opentype/coverage", "c08.go", "VerifH_C08_coverage_bytes", ["accepted"], quick={"params": {"maxlen": 8}, "timeout": 280}, thorough={"params": {"maxlen": 16}, "timeout": 2400}),
+        H("opentype/coverage", "c08.go", "VerifH_C08_coverage_bytes", ["accepted"], quick={"params": {"maxlen": 16}, "timeout": 280}, thorough={"params": {"maxlen": 22}, "timeout": 2400}),
         H("opentype/classdef", "c08.go", "VerifH_C08_classdef", ["read", "format1", "format2"], quick={"params": {"maxglyphs": 3}, "timeout": 280}, thorough={"params": {"maxglyphs": 5}, "timeout": 2400}),
         H("opentype/classdef", "c08.go", "VerifH_C08_classdef_bytes", ["accepted"], quick={"params": {"maxlen": 8}, "timeout": 280}, thorough={"params": {"maxlen": 16}, "timeout": 2400}),
         H("opentype/classdef", "c08.go", "VerifH_C08_classdef_runs", ["read", "format2"], quick={"timeout": 280, "shards": 2}),
